@@ -175,6 +175,7 @@ fn st(name: &str, fields: &[(&str, Ty)]) -> Ty {
         name,
         DefKind::Struct(StructDef {
             repr_c: false,
+            align: None,
             style: Style::Named,
             fields: fields.iter().map(|(n, t)| Field::plain(n, t.clone())).collect(),
         }),
